@@ -115,9 +115,25 @@ class MQTTFactory(ReconnectingClientFactory):
 
     def makeId(self):
         '''Produce ids for Protocol packets, outliving their sessions'''
-        self.id = (self.id + 1) % 65536
-        self.id = self.id or 1   # avoid id 0
+        for _ in range(65535):
+            self.id = (self.id + 1) % 65536
+            self.id = self.id or 1   # avoid id 0
+            if not self._idInUse(self.id):  # after a wrap-around old requests may still hold it
+                break
         return self.id
+
+
+    def _idInUse(self, msgId):
+        '''Tell if an unfinished request (any address) still carries this id'''
+        for windows in (self.windowPublish, self.windowPubRelease, self.windowSubscribe, self.windowUnsubscribe):
+            for window in windows.values():
+                if msgId in window:
+                    return True
+        for queue in self.queuePublishTx.values():
+            for request in queue:
+                if request.msgId == msgId:
+                    return True
+        return False
 
 
 __all__ = [MQTTFactory]
